@@ -70,6 +70,10 @@ def run(ctx):
     ctx.mod(ANALYSIS)
     eng = Engine(ctx.repo)
     core(ctx, eng)
+    # getter; recorder; getter sequences: an instance memo of a record container must be dropped by every recorder (agstatic/memo.py)
+    from .. import memo
+    for _c in ['ClassAnalysis', 'MethodAnalysis']:
+        memo.check_class(ctx, ctx.mod(ANALYSIS), _c)
     ctx.note("not decided: equality of the xref sets with the instructions of concrete DEX files (run-time data)")
     if ctx.tier == "thorough":
         base = Collector()
